@@ -249,6 +249,42 @@ pub struct C15Cfg {
     pub prebuffered: bool,
 }
 
+/// equality up to what a link may legitimately change (the remaining time of a request; a
+/// non-portable error kind over a serializing link)
+fn msg_eq(m: &Msg, g: &Msg, serde: bool) -> bool {
+    match (m, g) {
+        (Msg::Req { id: a, body: b, trace: t, .. }, Msg::Req { id: a2, body: b2, trace: t2, .. }) => a == a2 && b == b2 && t == t2,
+        (Msg::Cancel { id: a, trace: t }, Msg::Cancel { id: a2, trace: t2 }) => a == a2 && t == t2,
+        (Msg::Resp { id: a, body: Ok(b) }, Msg::Resp { id: a2, body: Ok(b2) }) => a == a2 && b == b2,
+        (Msg::Resp { id: a, body: Err((k1, d1)) }, Msg::Resp { id: a2, body: Err((k2, d2)) }) => a == a2 && d1 == d2 && *k2 == expected_kind(*k1, serde),
+        _ => false,
+    }
+}
+
+/// a stream that is formally also a sink (never used as one)
+struct StreamOnly<S>(S);
+impl<S: Stream + Unpin> Stream for StreamOnly<S> {
+    type Item = S::Item;
+    fn poll_next(mut self: Pin<&mut Self>, cx: &mut Context<'_>) -> Poll<Option<S::Item>> {
+        Pin::new(&mut self.0).poll_next(cx)
+    }
+}
+impl<S, T> futures::Sink<T> for StreamOnly<S> {
+    type Error = io::Error;
+    fn poll_ready(self: Pin<&mut Self>, _: &mut Context<'_>) -> Poll<io::Result<()>> {
+        unreachable!("harness: the pre-used reader is never written to")
+    }
+    fn start_send(self: Pin<&mut Self>, _: T) -> io::Result<()> {
+        unreachable!()
+    }
+    fn poll_flush(self: Pin<&mut Self>, _: &mut Context<'_>) -> Poll<io::Result<()>> {
+        unreachable!()
+    }
+    fn poll_close(self: Pin<&mut Self>, _: &mut Context<'_>) -> Poll<io::Result<()>> {
+        unreachable!()
+    }
+}
+
 const GREETING: &[u8] = b"hello tarpc\n";
 
 /// One direction of one link: write a generated sequence at one end, read at the other.
@@ -261,14 +297,29 @@ pub fn c15_case(cfg: &C15Cfg) -> Outcome {
     let got: std::rc::Rc<std::cell::RefCell<Vec<(Msg, Option<Instant>, Instant, Instant)>>> = Default::default();
     let sent_deadlines: std::rc::Rc<std::cell::RefCell<Vec<(Option<Instant>, Instant, Instant)>>> = Default::default();
     let eos: std::rc::Rc<std::cell::Cell<Option<Result<(), String>>>> = Default::default();
+    // reverse traffic after a half-close: once the reading end has seen end-of-stream it writes a
+    // few messages back, which the end that closed only its writing side must still receive
+    let do_rev = cfg.end == EndMode::Close && !cfg.prebuffered && !matches!(cfg.link, Link::Unbounded);
+    let rev: std::rc::Rc<Vec<Msg>> = std::rc::Rc::new(if !do_rev {
+        vec![]
+    } else if cfg.c2s {
+        gen_s2c(&mut r, 1 + (cfg.seed % 4) as usize, false)
+    } else {
+        gen_c2s(&mut r, 1 + (cfg.seed % 4) as usize, false)
+    });
+    let rev_got: std::rc::Rc<std::cell::RefCell<Vec<Msg>>> = Default::default();
+    let rev_err: std::rc::Rc<std::cell::RefCell<Vec<String>>> = Default::default();
     let res = catch_unwind(AssertUnwindSafe(|| {
         macro_rules! run_pair {
-            ($w:expr, $rd:expr, $tx_item:ty, $mk:expr, $unmk:expr) => {{
+            ($w:expr, $rd:expr, $tx_item:ty, $mk:expr, $unmk:expr, $rtx_item:ty, $rmk:expr, $runmk:expr) => {{
                 let mut w = $w;
                 let mut rd = $rd;
                 let msgs2 = msgs.clone();
                 let sd = sent_deadlines.clone();
                 let end = cfg.end;
+                let rev2 = rev.clone();
+                let rev_got2 = rev_got.clone();
+                let rev_err2 = rev_err.clone();
                 let mut writer = Box::pin(async move {
                     for m in msgs2.iter() {
                         let (item, dl): ($tx_item, Option<Instant>) = $mk(m);
@@ -282,6 +333,20 @@ pub fn c15_case(cfg: &C15Cfg) -> Outcome {
                     match end {
                         EndMode::Close => {
                             let _ = w.close().await;
+                            if do_rev {
+                                // half-closed: this end keeps reading what the peer still sends
+                                loop {
+                                    match w.next().await {
+                                        Some(Ok(item)) => rev_got2.borrow_mut().push($runmk(item).0),
+                                        Some(Err(e)) => {
+                                            rev_err2.borrow_mut().push(format!("the half-closed end failed to read: {e}"));
+                                            break;
+                                        }
+                                        None => break,
+                                    }
+                                }
+                                return;
+                            }
                             // the writer is kept alive: end-of-stream must come from the close
                             futures::future::pending::<()>().await;
                         }
@@ -290,6 +355,8 @@ pub fn c15_case(cfg: &C15Cfg) -> Outcome {
                 });
                 let got2 = got.clone();
                 let eos2 = eos.clone();
+                let rev3 = rev2.clone();
+                let rev_err3 = rev_err.clone();
                 let mut reader = Box::pin(async move {
                     loop {
                         let t0 = Instant::now();
@@ -304,6 +371,20 @@ pub fn c15_case(cfg: &C15Cfg) -> Outcome {
                             }
                             None => {
                                 eos2.set(Some(Ok(())));
+                                if do_rev {
+                                    // the peer only closed its writing side: replies must still get through
+                                    for m in rev3.iter() {
+                                        let (item, _): ($rtx_item, Option<Instant>) = $rmk(m);
+                                        if let Err(e) = rd.feed(item).await {
+                                            rev_err3.borrow_mut().push(format!("writing towards the half-closed end failed: {e}"));
+                                            return;
+                                        }
+                                    }
+                                    if let Err(e) = futures::SinkExt::<$rtx_item>::flush(&mut rd).await {
+                                        rev_err3.borrow_mut().push(format!("flushing towards the half-closed end failed: {e}"));
+                                    }
+                                    drop(rd);
+                                }
                                 return;
                             }
                         }
@@ -333,7 +414,7 @@ pub fn c15_case(cfg: &C15Cfg) -> Outcome {
                         }
                     }
                     polls += 1;
-                    if rdone && (wdone || end == EndMode::Close) {
+                    if rdone && (wdone || (end == EndMode::Close && !do_rev)) {
                         break Ok(());
                     }
                     if !progressed {
@@ -350,7 +431,7 @@ pub fn c15_case(cfg: &C15Cfg) -> Outcome {
         macro_rules! lazy_rd {
             ($io:expr, $codec:expr) => {{
                 let io = $io;
-                Box::pin(
+                StreamOnly(Box::pin(
                     futures::stream::once(async move {
                         let mut lines = Framed::new(io, tokio_util::codec::LinesCodec::new());
                         let g = lines.next().await;
@@ -359,7 +440,7 @@ pub fn c15_case(cfg: &C15Cfg) -> Outcome {
                         tarpc::serde_transport::new(framed, $codec)
                     })
                     .flatten(),
-                )
+                ))
             }};
         }
         let mk_c = |m: &Msg| to_client_message(m);
@@ -384,19 +465,19 @@ pub fn c15_case(cfg: &C15Cfg) -> Outcome {
         match (cfg.link, cfg.c2s) {
             (Link::Unbounded, true) => {
                 let (c, s) = tarpc::transport::channel::unbounded::<Response<String>, ClientMessage<String>>();
-                run_pair!(c, s, ClientMessage<String>, mk_c, un_c)
+                run_pair!(c, s, ClientMessage<String>, mk_c, un_c, Response<String>, mk_s, un_s)
             }
             (Link::Unbounded, false) => {
                 let (c, s) = tarpc::transport::channel::unbounded::<Response<String>, ClientMessage<String>>();
-                run_pair!(s, c, Response<String>, mk_s, un_s)
+                run_pair!(s, c, Response<String>, mk_s, un_s, ClientMessage<String>, mk_c, un_c)
             }
             (Link::Bounded(n), true) => {
                 let (c, s) = tarpc::transport::channel::bounded::<Response<String>, ClientMessage<String>>(n);
-                run_pair!(c, s, ClientMessage<String>, mk_c, un_c)
+                run_pair!(c, s, ClientMessage<String>, mk_c, un_c, Response<String>, mk_s, un_s)
             }
             (Link::Bounded(n), false) => {
                 let (c, s) = tarpc::transport::channel::bounded::<Response<String>, ClientMessage<String>>(n);
-                run_pair!(s, c, Response<String>, mk_s, un_s)
+                run_pair!(s, c, Response<String>, mk_s, un_s, ClientMessage<String>, mk_c, un_c)
             }
             (Link::Json, c2s) => {
                 let (a, b) = frag_pipe(cfg.seed, cfg.max_chunk, cfg.pending_pct);
@@ -409,28 +490,28 @@ pub fn c15_case(cfg: &C15Cfg) -> Outcome {
                     if c2s {
                         let c = tarpc::serde_transport::new(Framed::new(wr, LengthDelimitedCodec::new()), tokio_serde::formats::Json::<Response<String>, ClientMessage<String>>::default());
                         let s = lazy_rd!(rdio, tokio_serde::formats::Json::<ClientMessage<String>, Response<String>>::default());
-                        run_pair!(c, s, ClientMessage<String>, mk_c, un_c)
+                        run_pair!(c, s, ClientMessage<String>, mk_c, un_c, Response<String>, mk_s, un_s)
                     } else {
                         let s = tarpc::serde_transport::new(Framed::new(wr, LengthDelimitedCodec::new()), tokio_serde::formats::Json::<ClientMessage<String>, Response<String>>::default());
                         let c = lazy_rd!(rdio, tokio_serde::formats::Json::<Response<String>, ClientMessage<String>>::default());
-                        run_pair!(s, c, Response<String>, mk_s, un_s)
+                        run_pair!(s, c, Response<String>, mk_s, un_s, ClientMessage<String>, mk_c, un_c)
                     }
                 } else if cfg.seed & 2 == 0 {
                     // the other shipped constructor
                     let c = tarpc::serde_transport::Transport::from((a, tokio_serde::formats::Json::<Response<String>, ClientMessage<String>>::default()));
                     let s = tarpc::serde_transport::Transport::from((b, tokio_serde::formats::Json::<ClientMessage<String>, Response<String>>::default()));
                     if c2s {
-                        run_pair!(c, s, ClientMessage<String>, mk_c, un_c)
+                        run_pair!(c, s, ClientMessage<String>, mk_c, un_c, Response<String>, mk_s, un_s)
                     } else {
-                        run_pair!(s, c, Response<String>, mk_s, un_s)
+                        run_pair!(s, c, Response<String>, mk_s, un_s, ClientMessage<String>, mk_c, un_c)
                     }
                 } else {
                     let c = tarpc::serde_transport::new(Framed::new(a, LengthDelimitedCodec::new()), tokio_serde::formats::Json::<Response<String>, ClientMessage<String>>::default());
                     let s = tarpc::serde_transport::new(Framed::new(b, LengthDelimitedCodec::new()), tokio_serde::formats::Json::<ClientMessage<String>, Response<String>>::default());
                     if c2s {
-                        run_pair!(c, s, ClientMessage<String>, mk_c, un_c)
+                        run_pair!(c, s, ClientMessage<String>, mk_c, un_c, Response<String>, mk_s, un_s)
                     } else {
-                        run_pair!(s, c, Response<String>, mk_s, un_s)
+                        run_pair!(s, c, Response<String>, mk_s, un_s, ClientMessage<String>, mk_c, un_c)
                     }
                 }
             }
@@ -445,28 +526,28 @@ pub fn c15_case(cfg: &C15Cfg) -> Outcome {
                     if c2s {
                         let c = tarpc::serde_transport::new(Framed::new(wr, LengthDelimitedCodec::new()), tokio_serde::formats::Bincode::<Response<String>, ClientMessage<String>>::default());
                         let s = lazy_rd!(rdio, tokio_serde::formats::Bincode::<ClientMessage<String>, Response<String>>::default());
-                        run_pair!(c, s, ClientMessage<String>, mk_c, un_c)
+                        run_pair!(c, s, ClientMessage<String>, mk_c, un_c, Response<String>, mk_s, un_s)
                     } else {
                         let s = tarpc::serde_transport::new(Framed::new(wr, LengthDelimitedCodec::new()), tokio_serde::formats::Bincode::<ClientMessage<String>, Response<String>>::default());
                         let c = lazy_rd!(rdio, tokio_serde::formats::Bincode::<Response<String>, ClientMessage<String>>::default());
-                        run_pair!(s, c, Response<String>, mk_s, un_s)
+                        run_pair!(s, c, Response<String>, mk_s, un_s, ClientMessage<String>, mk_c, un_c)
                     }
                 } else if cfg.seed & 2 == 0 {
                     // the other shipped constructor
                     let c = tarpc::serde_transport::Transport::from((a, tokio_serde::formats::Bincode::<Response<String>, ClientMessage<String>>::default()));
                     let s = tarpc::serde_transport::Transport::from((b, tokio_serde::formats::Bincode::<ClientMessage<String>, Response<String>>::default()));
                     if c2s {
-                        run_pair!(c, s, ClientMessage<String>, mk_c, un_c)
+                        run_pair!(c, s, ClientMessage<String>, mk_c, un_c, Response<String>, mk_s, un_s)
                     } else {
-                        run_pair!(s, c, Response<String>, mk_s, un_s)
+                        run_pair!(s, c, Response<String>, mk_s, un_s, ClientMessage<String>, mk_c, un_c)
                     }
                 } else {
                     let c = tarpc::serde_transport::new(Framed::new(a, LengthDelimitedCodec::new()), tokio_serde::formats::Bincode::<Response<String>, ClientMessage<String>>::default());
                     let s = tarpc::serde_transport::new(Framed::new(b, LengthDelimitedCodec::new()), tokio_serde::formats::Bincode::<ClientMessage<String>, Response<String>>::default());
                     if c2s {
-                        run_pair!(c, s, ClientMessage<String>, mk_c, un_c)
+                        run_pair!(c, s, ClientMessage<String>, mk_c, un_c, Response<String>, mk_s, un_s)
                     } else {
-                        run_pair!(s, c, Response<String>, mk_s, un_s)
+                        run_pair!(s, c, Response<String>, mk_s, un_s, ClientMessage<String>, mk_c, un_c)
                     }
                 }
             }
@@ -539,6 +620,16 @@ pub fn c15_case(cfg: &C15Cfg) -> Outcome {
                 }
             }
         }
+    }
+    if do_rev {
+        for e in rev_err.borrow().iter() {
+            out.viol("C15", "half-close-broke-reverse-direction", format!("{name}: after one end closed its writing side, {e}"));
+        }
+        let rg = rev_got.borrow();
+        if rev_err.borrow().is_empty() && (rg.len() != rev.len() || rg.iter().zip(rev.iter()).any(|(g, m)| !msg_eq(m, g, serde))) {
+            out.viol("C15", "half-close-broke-reverse-direction", format!("{name}: after one end closed its writing side the other wrote {} messages back, {} arrived{}", rev.len(), rg.len(), if rg.len() == rev.len() { " (altered)" } else { "" }));
+        }
+        out.cell(format!("C15.reverse-traffic-after-half-close.{}", name.replace(['(', ')'], "_")));
     }
     match eos.take() {
         Some(Ok(())) => {}
